@@ -215,8 +215,11 @@ func forNud(p *parser, t *token) *token {
 		return t
 	}
 
-	first := p.Expression(0, "{")
-	if first.Symbol == "range" {
+	var first *token // nil: the init clause is empty (for ; cond; post)
+	if p.Token.Symbol != ";" {
+		first = p.Expression(0, "{")
+	}
+	if first != nil && first.Symbol == "range" {
 		tok := first
 		tok.Append(blankAtPos(t.Pos))
 		tok.Append(blankAtPos(t.Pos))
@@ -225,7 +228,7 @@ func forNud(p *parser, t *token) *token {
 		return tok
 	}
 
-	if first.Symbol == ":=" && first.Tokens[1].Symbol == "range" {
+	if first != nil && first.Symbol == ":=" && first.Tokens[1].Symbol == "range" {
 		tok := symAtPos(t.Pos, "range")
 		left := plural(first.Tokens[0])
 		if len(left.Tokens) < 2 {
@@ -237,7 +240,7 @@ func forNud(p *parser, t *token) *token {
 		return tok
 	}
 
-	if p.Token.Symbol == "{" {
+	if first != nil && p.Token.Symbol == "{" {
 		t.Append(symAtPos(t.Pos, "~"))
 		t.Append(first)
 		t.Append(symAtPos(t.Pos, "~"))
@@ -245,11 +248,24 @@ func forNud(p *parser, t *token) *token {
 		return t
 	}
 
-	t.Append(asStatement(first))
+	// three clauses, each of which may be empty
+	if first != nil {
+		t.Append(asStatement(first))
+	} else {
+		t.Append(symAtPos(t.Pos, "~"))
+	}
 	p.Advance(";")
-	t.Append(p.Expression(0, "{"))
+	if p.Token.Symbol != ";" {
+		t.Append(p.Expression(0, "{"))
+	} else {
+		t.Append(symAtPos(t.Pos, "~"))
+	}
 	p.Advance(";")
-	t.Append(asStatement(p.Expression(0, "{")))
+	if p.Token.Symbol != "{" {
+		t.Append(asStatement(p.Expression(0, "{")))
+	} else {
+		t.Append(symAtPos(t.Pos, "~"))
+	}
 	t.Append(p.Block("block", "{", "}"))
 	return t
 }
